@@ -283,8 +283,8 @@ def _exec_one(plan, fail, missing, kill_at, root, res, sigctx, twin=False):
         sc = os.path.realpath(scratch)
         if not d.startswith(sc + os.sep) or d == os.path.join(sc, plan["jid"] + "__foreign"):
             return viol("private-directory", f"commands ran in {d}, not in a private directory inside the requested scratch directory {sc}")
-        if os.path.realpath(fe.log[0]["real_cwd"]) != d:
-            return viol("private-directory", f"process cwd {fe.log[0]['real_cwd']} differs from the job directory {d}")
+        # (the directory a command runs in is the cwd it is started with - or, failing that, the runner's own; where the
+        #  RUNNER process stands meanwhile is not the statement's business)
         # ---- input files before command 0
         c0 = fe.log[0]["contents"]
         for fn, spec in plan["files"].items():
